@@ -18,6 +18,9 @@ type Driver struct {
 var Registry = map[string]*Driver{}
 
 // shardJobs builds n jobs "-job name -shard i -nshards n".
+// ReplaySig is the signature recorded in the replay artefact being re-executed ("" when unknown).
+var ReplaySig string
+
 func shardJobs(name string, n int, race bool, timeout int) []core.Job {
 	var jobs []core.Job
 	for i := 0; i < n; i++ {
